@@ -254,6 +254,11 @@ class Engine:
         env = {"vars": dict(st.vars), "heap": st.heap.copy(), "nref": st.nref, "labels": dict(st.labels), "idx": list(st.idx), "trail": list(self.trail), "tags": sorted(self.path_tags)}
         self.obligations.append(Obligation(oid, kind, list(st.pc), goal, list(st.idx), env, where))
 
+    def prune(self):
+        """end the path if the assumptions just added (an outcome's conditions) contradict the path condition"""
+        if not self.feasible(self.st.pc):
+            raise PathEnd("infeasible outcome")
+
     def assume(self, z):
         if self.st.bound:
             return
@@ -288,6 +293,8 @@ class Engine:
         for nm, v in self.params.items():
             self.input_closure(v, v.ty, [], [], 0)
         st.labels["entry"] = Snapshot(st)
+        for r in c.d.get("axioms", []):
+            st.pc.append(self.spec(r))
         for r in c.requires:
             st.pc.append(self.spec(r))
         st.labels["entry"] = Snapshot(st)
@@ -615,8 +622,10 @@ class Engine:
         ety = self.elem_ty(v)
         s = sort_of(ety)
         val = self.coerce(val, ety)
-        if val.none is not None:
-            raise OutOfSubset("optional scalar stored in a list")
+        if val.none is not None and not z3.is_false(z3.simplify(val.none)):
+            if is_opt(ety):
+                raise OutOfSubset("optional scalar stored in a list of optionals")
+            self.oblige("none-store", z3.Not(val.none), "list-append")  # the element type is not optional: None must be impossible here
         name = self.el_name(ety)
         n = self.len_of(v)
         arr = self.hread(name, z3.ArraySort(I, s), v.z)
@@ -1013,6 +1022,8 @@ class Engine:
         if a.ty == "str" and b.ty == "str":
             lt = z3.Function("str_lt", I, I, B)
             return {"Lt": lt(a.z, b.z), "Gt": lt(b.z, a.z), "LtE": z3.Not(lt(b.z, a.z)), "GtE": z3.Not(lt(a.z, b.z))}[o]
+        if self.st.spec and (a.ty == "none" or b.ty == "none"):
+            return z3.BoolVal(False)  # spec: an ordering against None is false (guard it with isnone)
         for x in (a, b):
             if x.ty not in ("int", "real", "bool"):
                 raise OutOfSubset(f"ordering on {x.ty}: {U(e) if e is not None else ''}")
@@ -1166,9 +1177,36 @@ class Engine:
     def st_If(self, n):
         c = self.truthy(self.ev(n.test))
         if self.branch(c):
+            self.narrow(n.test, True)
             self.block(n.body)
         else:
+            self.narrow(n.test, False)
             self.block(n.orelse)
+
+    def narrow(self, test, taken):
+        """type narrowing after a branch: a local known to be not None loses its `none` flag (the fact is in the path condition)"""
+        st = self.st
+
+        def drop(name):
+            v = st.vars.get(name)
+            if v is not None and v.none is not None:
+                st.vars[name] = V(v.ty, v.z, None, v.items, v.py)
+
+        if isinstance(test, ast.Name) and taken:
+            drop(test.id)
+        elif isinstance(test, ast.NamedExpr) and taken:
+            drop(test.target.id)
+        elif isinstance(test, ast.UnaryOp) and isinstance(test.op, ast.Not):
+            self.narrow(test.operand, not taken)
+        elif isinstance(test, ast.BoolOp):
+            if isinstance(test.op, ast.And) and taken or isinstance(test.op, ast.Or) and not taken:
+                for v in test.values:
+                    self.narrow(v, taken)
+        elif isinstance(test, ast.Compare) and len(test.ops) == 1 and isinstance(test.left, (ast.Name, ast.NamedExpr)):
+            rhs = test.comparators[0]
+            if isinstance(rhs, ast.Constant) and rhs.value is None:
+                if isinstance(test.ops[0], ast.IsNot) and taken or isinstance(test.ops[0], ast.Is) and not taken:
+                    drop(test.left.id if isinstance(test.left, ast.Name) else test.left.target.id)
 
     def st_Raise(self, n):
         if n.exc is None:
